@@ -9,6 +9,7 @@ import MsPack.Huff
 import MsPack.Spec.CabEncode
 import MsPack.Spec.Lzss
 import MsPack.Spec.Kwaj
+import MsPack.Spec.ChmEncode
 /-
 `prim WHAT ARGS…`: direct calls of the models of static functions.
 -/
@@ -139,6 +140,31 @@ def handle (toks : List String) : HM State Bool := do
     | some m, some ts =>
       emit s!"prim lzssenc {optHex (some (Lzss.encode ts))} {outDigest (Lzss.expand ts (Lzss.initRing m)).out.toList}"
     | _, _ => emit "prim lzssenc bad-args"
+    return true
+  | "prim" :: "encchm" :: ver :: ts :: lang :: csize :: dens :: contentHex :: nchunks :: rest =>
+    -- driver-only: `Chm.encodeChm` of a directory specification:
+    --   prim encchm VERSION TIMESTAMP LANG CHUNKSIZE DENSITY CONTENTHEX NCHUNKS (NENTRIES (NAMEHEX SEC OFF LEN)*NENTRIES)*NCHUNKS
+    let rec entries : Nat → List String → Option (List Chm.EntrySpec × List String)
+      | 0, l => some ([], l)
+      | k + 1, nm :: a :: b :: c :: l => do
+        let name ← (if nm = "=" then some [] else parseHex nm)
+        let sec ← parseNat a; let off ← parseNat b; let len ← parseNat c
+        let (tl, l') ← entries k l
+        pure (⟨name, sec, off, len⟩ :: tl, l')
+      | _, _ => none
+    let rec chunks : Nat → List String → Option (List (List Chm.EntrySpec))
+      | 0, _ => some []
+      | k + 1, n :: l => do
+        let ne ← parseNat n
+        let (es, l') ← entries ne l
+        let tl ← chunks k l'
+        pure (es :: tl)
+      | _, _ => none
+    match parseNat ver, parseNat ts, parseNat lang, parseNat csize, parseNat dens,
+          (if contentHex = "=" then some [] else parseHex contentHex), (parseNat nchunks).bind (chunks · rest) with
+    | some v, some t, some la, some cs, some de, some content, some chs =>
+      emit s!"prim encchm {toHex (Chm.encodeChm ⟨v, t, la, cs, de, chs, content⟩)}"
+    | _, _, _, _, _, _, _ => emit "prim encchm bad-args"
     return true
   | ["prim", "enckwaj", xor, len, unk1, unk2, extra, dataHex] =>
     -- driver-only: `Kwaj.encodeKwaj` of a specification; absent optional parts are written `-`:
